@@ -675,6 +675,37 @@ func checkWSHandshake(c *Ctx) {
 				"the handshake response is read through the connection's buffered reader",
 				"the handshake response is read through "+p+" instead of the connection's own buffered reader: frames the server sends right after the 101 response are buffered in a reader that is thrown away and never reach the application", nil)
 		})
+		// the read may sit in a helper called after the Conn exists: the reader it uses must be one the caller hands in,
+		// and that one the connection's own
+		core.EachInstr(dial, func(in ssa.Instruction) {
+			call, ok := in.(*ssa.Call)
+			if !ok || mk == nil || !core.Precedes(mk, call) {
+				return
+			}
+			h := call.Call.StaticCallee()
+			if h == nil || !core.InModule(h) || len(h.Blocks) == 0 {
+				return
+			}
+			core.EachInstr(h, func(x ssa.Instruction) {
+				rc, ok := x.(*ssa.Call)
+				if !ok || rc.Call.StaticCallee() == nil || core.FullName(rc.Call.StaticCallee()) != "http.ReadResponse" {
+					return
+				}
+				n++
+				good, what := false, "a reader created inside "+core.FuncName(h)
+				if par, isPar := core.StripConv(rc.Call.Args[0]).(*ssa.Parameter); isPar {
+					for i, q := range h.Params {
+						if q == par && i < len(call.Call.Args) {
+							what = core.Path(call.Call.Args[i])
+							good = strings.HasSuffix(what, ".br")
+						}
+					}
+				}
+				R.Check(good, "C13.hs", fmt.Sprintf("websocket|(*Dialer).Dial|response-read-through-conn-reader#%d", n), P.InstrPos(call),
+					"the handshake response is read through the connection's buffered reader",
+					"the handshake response is read through "+what+" instead of the connection's own buffered reader: frames the server sends right after the 101 response are buffered in a reader that is thrown away and never reach the application", nil)
+			})
+		})
 		if n == 0 {
 			R.Unknown("C13.hs", "websocket|(*Dialer).Dial|response-read-through-conn-reader", P.Pos(dial.Pos()), "Dial does not call http.ReadResponse", nil)
 		}
